@@ -217,12 +217,13 @@ func run(toks []string) string {
 	case "mux":
 		k, _ := strconv.Atoi(toks[2])
 		m := goahttp.NewMuxer()
-		var hit, mwPattern string
+		var hit, mwPattern, mwVars, handlerVars string
 		hitAny := false
 		// a middleware registered before the handlers, one after the first Handle
 		m.Use(func(h http.Handler) http.Handler {
 			return http.HandlerFunc(func(w http.ResponseWriter, r *http.Request) {
 				mwPattern = m.ResolvePattern(r)
+				mwVars = fmt.Sprint(sortedVars(m.Vars(r)))
 				h.ServeHTTP(w, r)
 			})
 		})
@@ -233,6 +234,7 @@ func run(toks []string) string {
 			m.Handle(method, pattern, func(w http.ResponseWriter, r *http.Request) {
 				hitAny = true
 				vars := m.Vars(r)
+				handlerVars = fmt.Sprint(sortedVars(vars))
 				var kv []string
 				for n, v := range vars {
 					kv = append(kv, lp.Enc(n)+"="+lp.Enc(v))
@@ -257,10 +259,14 @@ func run(toks []string) string {
 				}
 			}
 		}
-		hit, mwPattern, hitAny = "", "", false
+		hit, mwPattern, mwVars, handlerVars, hitAny = "", "", "", "", false
 		rec := httptest.NewRecorder()
 		m.ServeHTTP(rec, req)
 		if hitAny {
+			if mwVars != handlerVars {
+				// a middleware registered with Use sees the same path variables as the handler
+				return hit + " mw=" + lp.Enc(mwPattern) + " middleware-vars-differ:" + lp.Enc(mwVars)
+			}
 			return hit + " mw=" + lp.Enc(mwPattern)
 		}
 		if rec.Code == http.StatusNotFound {
@@ -301,6 +307,15 @@ func run(toks []string) string {
 		return "status=" + strconv.Itoa(rec.Code)
 	}
 	return "bad-op"
+}
+
+func sortedVars(vars map[string]string) []string {
+	var kv []string
+	for n, v := range vars {
+		kv = append(kv, n+"="+v)
+	}
+	sort.Strings(kv)
+	return kv
 }
 
 // readRequest parses the request line exactly as net/http's server does.
